@@ -1,1 +1,353 @@
-(* Model/Tridiag.v -- stub, to be filled in *)
+(* Model/Tridiag.v -- src/tridiagonal.rs over any Arith, statement by statement.
+   Storage as the code stores it: three lists (sub: n-1, main: n, sup: n-1) and the field n.
+   Every Vec access is checked ([rd]/[upd]), every `n - 1` on usize is [usub], every explicit
+   `if .. { panic!(..) }` is a [Panic Guard] in the same place.  Definitions only. *)
+From Coq Require Import List Arith Lia ZArith Bool.
+From OV Require Import Base.Panic Base.Arith Base.Flat Model.Vector Model.Matrix.
+Import ListNotations.
+Local Open Scope arith_scope.
+Local Open Scope bool_scope.
+
+Section Tri.
+Context {A : Arith}.
+Notation T := (T A).
+
+Record tridiag := mkT { tsub : list T; tmain : list T; tsup : list T; tn : nat }.
+
+(* ---------- constructors (tridiagonal.rs:18-107) ---------- *)
+
+Definition tempty : tridiag := mkT [] [] [] 0.
+
+(* with_vectors / with_vecs: n = main.len(); `sub.len() != n - 1 || sup.len() != n - 1` --
+   the subtraction is evaluated first: n = 0 underflows (debug profile) before any comparison *)
+Definition with_vecs (sub main sup : list T) : res tridiag :=
+  let n := length main in
+  let* n1 := usub n 1 in
+  if negb (length sub =? n1) then Panic Guard else
+  let* n1' := usub n 1 in
+  if negb (length sup =? n1') then Panic Guard else
+  Ok (mkT sub main sup n).
+Definition with_vectors := with_vecs.
+
+(* new(n): Vector::new(n - 1, 0), Vector::new(n, 0), Vector::new(n - 1, 0) *)
+Definition with_elements (sb mn sp : T) (n : nat) : res tridiag :=
+  let* n1 := usub n 1 in
+  let sub := repeat sb n1 in
+  let main := repeat mn n in
+  let* n1' := usub n 1 in
+  let sup := repeat sp n1' in
+  Ok (mkT sub main sup n).
+Definition tnew (n : nat) : res tridiag := with_elements zero zero zero n.
+Definition tresize (t : tridiag) (n : nat) : res tridiag := tnew n.
+
+Definition tsize (t : tridiag) : nat := tn t.
+
+(* transpose_in_place: temp = sub.clone(); sub = sup.clone(); sup = temp *)
+Definition ttranspose_in_place (t : tridiag) : tridiag :=
+  let temp := tsub t in
+  mkT (tsup t) (tmain t) temp (tn t).
+Definition ttranspose (t : tridiag) : tridiag := ttranspose_in_place t.
+
+(* ---------- Index / IndexMut (tridiagonal.rs:244-269) ---------- *)
+Definition tindex (t : tridiag) (i j : nat) : res T :=
+  if (tn t <=? i) || (tn t <=? j) then Panic Guard else
+  if i =? j then rd (tmain t) i else
+  if i =? j + 1 then rd (tsub t) j else
+  if i + 1 =? j then rd (tsup t) i else
+  Panic Guard.
+
+Definition tset (t : tridiag) (i j : nat) (x : T) : res tridiag :=
+  if (tn t <=? i) || (tn t <=? j) then Panic Guard else
+  if i =? j then let* m := upd (tmain t) i x in Ok (mkT (tsub t) m (tsup t) (tn t)) else
+  if i =? j + 1 then let* s := upd (tsub t) j x in Ok (mkT s (tmain t) (tsup t) (tn t)) else
+  if i + 1 =? j then let* s := upd (tsup t) i x in Ok (mkT (tsub t) (tmain t) s (tn t)) else
+  Panic Guard.
+
+(* ---------- det (tridiagonal.rs:127-136) ---------- *)
+Definition tdet (t : tridiag) : res T :=
+  let f := repeat zero (tn t + 1) in
+  let* f := upd f 0 one in
+  let* m0 := rd (tmain t) 0 in
+  let* f0 := rd f 0 in
+  let* f := upd f 1 (m0 * f0) in
+  let* f := for_ 2 (tn t + 1) (fun j f =>
+              let* mj := rd (tmain t) (j - 1) in
+              let* f1 := rd f (j - 1) in
+              let* sb := rd (tsub t) (j - 2) in
+              let* sp := rd (tsup t) (j - 2) in
+              let* f2 := rd f (j - 2) in
+              upd f j (mj * f1 - sb * sp * f2)) f in
+  rd f (tn t).
+
+(* ---------- convert (tridiagonal.rs:140-165) ---------- *)
+Definition tconvert (t : tridiag) : res (matrix A) :=
+  let n := tn t in
+  let dense := mat_new n n zero in
+  if n =? 0 then Panic Guard else
+  if n =? 1 then
+    let* m0 := rd (tmain t) 0 in mset dense 0 0 m0
+  else
+    let* m0 := rd (tmain t) 0 in
+    let* d := mset dense 0 0 m0 in
+    let* s0 := rd (tsup t) 0 in
+    let* d := mset d 0 1 s0 in
+    let* d := for_ 1 (n - 1) (fun i d =>
+                let* x := rd (tsub t) (i - 1) in
+                let* d := mset d i (i - 1) x in
+                let* x := rd (tmain t) i in
+                let* d := mset d i i x in
+                let* x := rd (tsup t) i in
+                mset d i (i + 1) x) d in
+    let* x := rd (tsub t) (n - 2) in
+    let* d := mset d (n - 1) (n - 2) x in
+    let* x := rd (tmain t) (n - 1) in
+    mset d (n - 1) (n - 1) x.
+
+(* ---------- Thomas solve (tridiagonal.rs:169-191) ---------- *)
+(* state of the forward sweep: (u, beta, gamma) *)
+Definition thomas_fwd_body (t : tridiag) (r a_temp c_temp : list T) (j : nat)
+           (s : list T * T * list T) : res (list T * T * list T) :=
+  let '(u, beta, gamma) := s in
+  let* c := rd c_temp (j - 1) in
+  let* g := div c beta in
+  let* gamma := upd gamma j g in
+  let* mj := rd (tmain t) j in
+  let* aj := rd a_temp j in
+  let* gj := rd gamma j in
+  let beta := mj - aj * gj in
+  if eqb beta zero then Panic Guard else            (* "zero pivot." *)
+  let* rj := rd r j in
+  let* aj := rd a_temp j in
+  let* u1 := rd u (j - 1) in
+  let* q := div (rj - aj * u1) beta in
+  let* u := upd u j q in
+  Ok (u, beta, gamma).
+
+Definition thomas_back_body (gamma : list T) (j : nat) (u : list T) : res (list T) :=
+  let* g := rd gamma (j + 1) in
+  let* u1 := rd u (j + 1) in
+  let temp := g * u1 in
+  let* uj := rd u j in
+  upd u j (uj - temp).
+
+Definition tsolve (t : tridiag) (r : list T) : res (list T) :=
+  let n := tn t in
+  if negb (n =? length r) then Panic Guard else
+  let u := repeat zero n in
+  let a_temp := vpush_front (tsub t) zero in
+  let c_temp := vpush (tsup t) zero in
+  let* beta := rd (tmain t) 0 in
+  let gamma := repeat zero n in
+  let* m0 := rd (tmain t) 0 in
+  if eqb m0 zero then Panic Guard else              (* "zero on leading diagonal." *)
+  let* r0 := rd r 0 in
+  let* q := div r0 beta in
+  let* u := upd u 0 q in
+  let* s := for_ 1 n (thomas_fwd_body t r a_temp c_temp) (u, beta, gamma) in
+  let '(u, _, gamma) := s in
+  let* hi := usub n 1 in
+  for_rev 0 hi (thomas_back_body gamma) u.
+
+(* the pivots of the elimination (beta_0 = main[0]; beta_k = main[k] - sub[k-1] * (sup[k-1] / beta_{k-1})),
+   computed with the arithmetic's own division: over an exact field [thomas_pivot t k = Ok zero]
+   says that the pivots before k are non-zero (else DivZero) and pivot k vanishes *)
+Fixpoint thomas_pivot (t : tridiag) (k : nat) : res T :=
+  match k with
+  | 0 => rd (tmain t) 0
+  | S k' =>
+      let* bp := thomas_pivot t k' in
+      let* c := rd (tsup t) k' in
+      let* g := div c bp in
+      let* m := rd (tmain t) k in
+      let* a := rd (tsub t) k' in
+      Ok (m - a * g)
+  end.
+
+(* which message a refusal carries: 1 = "zero on leading diagonal", 2 = "zero pivot", 0 = none.
+   first k < n with pivot k = Ok zero *)
+Fixpoint first_zero_pivot (t : tridiag) (fuel k : nat) : option nat :=
+  match fuel with
+  | 0 => None
+  | S f => match thomas_pivot t k with
+           | Ok p => if eqb p zero then Some k else first_zero_pivot t f (S k)
+           | Panic _ => None
+           end
+  end.
+Definition refusal_code (t : tridiag) : nat :=
+  match first_zero_pivot t (tn t) 0 with
+  | Some 0 => 1 | Some (S _) => 2 | None => 0
+  end.
+
+(* ---------- &T * &v (tridiagonal.rs:410-433, after fix 1f8b278) ---------- *)
+Definition tmul_gen (n1_branch : bool) (t : tridiag) (v : list T) : res (list T) :=
+  if negb (tsize t =? length v) then Panic Guard else
+  let result := repeat zero (tsize t) in
+  if n1_branch && (tn t =? 1) then
+    let* m0 := rd (tmain t) 0 in
+    let* v0 := rd v 0 in
+    upd result 0 (m0 * v0)
+  else
+  let* m0 := rd (tmain t) 0 in
+  let* v0 := rd v 0 in
+  let* s0 := rd (tsup t) 0 in
+  let* v1 := rd v 1 in
+  let* result := upd result 0 (m0 * v0 + s0 * v1) in
+  let* hi := usub (tsize t) 1 in
+  let* result := for_ 1 hi (fun i result =>
+                   let* sb := rd (tsub t) (i - 1) in
+                   let* vm := rd v (i - 1) in
+                   let* mi := rd (tmain t) i in
+                   let* vi := rd v i in
+                   let* sp := rd (tsup t) i in
+                   let* vp := rd v (i + 1) in
+                   upd result i (sb * vm + mi * vi + sp * vp)) result in
+  let* n2 := usub (tn t) 2 in
+  let* sb := rd (tsub t) n2 in
+  let* n2' := usub (tn t) 2 in
+  let* vm := rd v n2' in
+  let* n1 := usub (tn t) 1 in
+  let* ml := rd (tmain t) n1 in
+  let* n1' := usub (tn t) 1 in
+  let* vl := rd v n1' in
+  let* n1'' := usub (tn t) 1 in
+  upd result n1'' (sb * vm + ml * vl).
+
+Definition tmul := tmul_gen true.
+Definition tmul_legacy := tmul_gen false.     (* the pinned code: no n = 1 branch *)
+
+(* ---------- arithmetic (tridiagonal.rs:283-397): the Vector operators on the three diagonals,
+   in the order sub, main, sup ---------- *)
+Definition tneg (t : tridiag) : tridiag :=
+  mkT (vneg (tsub t)) (vneg (tmain t)) (vneg (tsup t)) (tn t).
+Definition tadd (a b : tridiag) : res tridiag :=
+  if negb (tsize a =? tsize b) then Panic Guard else
+  let* sub := vadd (tsub a) (tsub b) in
+  let* main := vadd (tmain a) (tmain b) in
+  let* sup := vadd (tsup a) (tsup b) in
+  Ok (mkT sub main sup (tn a)).
+Definition tminus (a b : tridiag) : res tridiag :=
+  if negb (tsize a =? tsize b) then Panic Guard else
+  let* sub := vsub (tsub a) (tsub b) in
+  let* main := vsub (tmain a) (tmain b) in
+  let* sup := vsub (tsup a) (tsup b) in
+  Ok (mkT sub main sup (tn a)).
+Definition tscale (t : tridiag) (s : T) : tridiag :=
+  mkT (vscale (tsub t) s) (vscale (tmain t) s) (vscale (tsup t) s) (tn t).
+Definition tscale_l (s : T) (t : tridiag) : tridiag :=        (* f64 * Tridiagonal<f64> *)
+  mkT (vscale_l s (tsub t)) (vscale_l s (tmain t)) (vscale_l s (tsup t)) (tn t).
+Definition tdiv (t : tridiag) (s : T) : res tridiag :=
+  let* sub := vdiv (tsub t) s in
+  let* main := vdiv (tmain t) s in
+  let* sup := vdiv (tsup t) s in
+  Ok (mkT sub main sup (tn t)).
+Definition tadd_assign_s (t : tridiag) (s : T) : tridiag :=
+  mkT (vadd_scalar (tsub t) s) (vadd_scalar (tmain t) s) (vadd_scalar (tsup t) s) (tn t).
+Definition tsub_assign_s (t : tridiag) (s : T) : tridiag :=
+  mkT (vsub_scalar (tsub t) s) (vsub_scalar (tmain t) s) (vsub_scalar (tsup t) s) (tn t).
+Definition tmul_assign_s (t : tridiag) (s : T) : tridiag :=
+  mkT (vmul_scalar (tsub t) s) (vmul_scalar (tmain t) s) (vmul_scalar (tsup t) s) (tn t).
+Definition tdiv_assign_s (t : tridiag) (s : T) : res tridiag :=
+  let* sub := vdiv_scalar (tsub t) s in
+  let* main := vdiv_scalar (tmain t) s in
+  let* sup := vdiv_scalar (tsup t) s in
+  Ok (mkT sub main sup (tn t)).
+
+(* ---------- the dense twin: the textbook matrix with the same three diagonals ---------- *)
+Definition dense (t : tridiag) (i j : nat) : T :=
+  if i =? j then nth i (tmain t) zero else
+  if i =? j + 1 then nth j (tsub t) zero else
+  if i + 1 =? j then nth i (tsup t) zero else zero.
+
+(* ================= runners of the correspondence check (kinds tri.x) ================= *)
+Variable flat : T -> list Z.
+
+Definition fl_tri (t : tridiag) : list Z :=
+  fl_nat (tsize t) ++ fl_list flat (tsub t) ++ fl_list flat (tmain t) ++ fl_list flat (tsup t).
+Definition fl_dense (m : matrix A) : list Z :=
+  fl_nat (rows m) ++ fl_nat (cols m) ++ concat (map flat (buf m)).
+
+(* tri.ctor *)
+Definition run_with_vecs (sub main sup : list T) : list Z := fl_res fl_tri (with_vecs sub main sup).
+Definition run_new (n : nat) : list Z := fl_res fl_tri (tnew n).
+Definition run_with_elements (a b c : T) (n : nat) : list Z := fl_res fl_tri (with_elements a b c n).
+Definition run_resize (sub main sup : list T) (n : nat) : list Z :=
+  fl_res fl_tri (let* t := with_vecs sub main sup in tresize t n).
+Definition run_empty : list Z :=
+  fl_tri tempty ++ fl_res fl_dense (tconvert tempty) ++ fl_res flat (tdet tempty)
+  ++ fl_res (fl_list flat) (tsolve tempty []) ++ fl_res (fl_list flat) (tmul tempty []).
+
+(* tri.views: every (i,j) in [0,n] x [0,n] (one past the end included), convert, transpose, det *)
+Definition run_views (sub main sup : list T) : list Z :=
+  match with_vecs sub main sup with
+  | Panic k => fl_panic k
+  | Ok t =>
+      fl_tri t
+      ++ concat (map (fun i => concat (map (fun j => fl_res flat (tindex t i j)) (seq 0 (tn t + 1))))
+                     (seq 0 (tn t + 1)))
+      ++ fl_res fl_dense (tconvert t)
+      ++ fl_tri (ttranspose t)
+      ++ fl_res fl_dense (tconvert (ttranspose t))
+      ++ fl_res flat (tdet t)
+  end.
+
+(* tri.set: a list of writes through IndexMut, state dumped after each *)
+Fixpoint run_sets_from (t : tridiag) (ws : list (nat * nat * T)) : list Z :=
+  match ws with
+  | [] => []
+  | (i, j, x) :: rest =>
+      match tset t i j x with
+      | Ok t' => fl_tri t' ++ run_sets_from t' rest
+      | Panic k => fl_panic k ++ fl_tri t ++ run_sets_from t rest
+      end
+  end.
+Definition run_sets (sub main sup : list T) (ws : list (nat * nat * T)) : list Z :=
+  match with_vecs sub main sup with
+  | Panic k => fl_panic k
+  | Ok t => fl_tri t ++ run_sets_from t ws
+  end.
+
+(* tri.arith: neg, +, -, *s, /s, += s, -= s, *= s, /= s on (t, t2, s); [left] adds f64 * T *)
+Definition run_arith (left : bool) (sub main sup sub2 main2 sup2 : list T) (s : T) : list Z :=
+  match with_vecs sub main sup, with_vecs sub2 main2 sup2 with
+  | Ok t, Ok t2 =>
+      fl_tri (tneg t)
+      ++ fl_res fl_tri (tadd t t2)
+      ++ fl_res fl_tri (tminus t t2)
+      ++ fl_tri (tscale t s)
+      ++ (if left then fl_tri (tscale_l s t) else [])
+      ++ fl_res fl_tri (tdiv t s)
+      ++ fl_tri (tadd_assign_s t s)
+      ++ fl_tri (tsub_assign_s t s)
+      ++ fl_tri (tmul_assign_s t s)
+      ++ fl_res fl_tri (tdiv_assign_s t s)
+  | Panic k, _ => fl_panic k
+  | _, Panic k => fl_panic k
+  end.
+
+(* tri.mul *)
+Definition run_mul (sub main sup v : list T) : list Z :=
+  match with_vecs sub main sup with
+  | Panic k => fl_panic k
+  | Ok t => fl_res (fl_list flat) (tmul t v)
+  end.
+Definition run_mul_legacy (sub main sup v : list T) : list Z :=
+  match with_vecs sub main sup with
+  | Panic k => fl_panic k
+  | Ok t => fl_res (fl_list flat) (tmul_legacy t v)
+  end.
+
+(* tri.solve: the solution, or the message code of the refusal followed by the panic *)
+Definition run_solve (sub main sup r : list T) : list Z :=
+  match with_vecs sub main sup with
+  | Panic k => fl_panic k
+  | Ok t =>
+      match tsolve t r with
+      | Ok u => fl_list flat u
+      | Panic Guard => fl_nat (if tn t =? length r then refusal_code t else 3) ++ fl_panic Guard
+      | Panic k => fl_nat 0 ++ fl_panic k
+      end
+  end.
+
+End Tri.
+
+Arguments tridiag A : clear implicits.
